@@ -87,6 +87,110 @@ static _Bool p_name_char(char ch)
         return (ch >= 'A' && ch <= 'Z') || (ch >= '0' && ch <= '9') || ch == '+' || ch == '#' || ch == '$' || ch == '@' || ch == '_' || ch == '%' || ch == '&';
 }
 
+/* ---- name resolution vocabulary (C02/C09), written from the property text ---- */
+/* ghost g_typed (declared in l1_env.h): the first H_NL+1 name characters typed on the current line, case-folded */
+
+static char p_upper(char ch)
+{
+        return (ch >= 'a' && ch <= 'z') ? (char)(ch - ('a' - 'A')) : ch;
+}
+
+/* command i of the table is invisible: its own flag or the flag of its group */
+static _Bool p_disabled(size_t i)
+{
+        size_t g, base = 0;
+        for (g = 0; g < H_NG; g++) {
+                if (g < h_desc.cmd_group_num) {
+                        if (i < base + h_grp[g].cmd_num)
+                                return h_grp[g].disable || h_cmds[i].disable;
+                        base += h_grp[g].cmd_num;
+                }
+        }
+        return 1;
+}
+
+static size_t p_namelen(size_t i)
+{
+        size_t n;
+        for (n = 0; n < H_NL; n++)
+                if (h_names[i][n] == 0)
+                        return n;
+        return H_NL;
+}
+
+#define LANE_NOT_MATCH 0
+#define LANE_PARTIAL 1
+#define LANE_FULL 2
+/* match state the statement requires for command i after k typed characters: invisible commands never match;
+ * otherwise the typed text must be a case-insensitive prefix of the name (FULL when it is the whole name) */
+static uint8_t p_spec(size_t i, size_t k)
+{
+        size_t j, len = p_namelen(i);
+        if (p_disabled(i) || k > len)
+                return LANE_NOT_MATCH;
+        for (j = 0; j < H_NL; j++)
+                if (j < k && p_upper(h_names[i][j]) != g_typed[j])
+                        return LANE_NOT_MATCH;
+        return (k == len) ? LANE_FULL : LANE_PARTIAL;
+}
+
+/* match state the library holds for command i (2 bits per command in the command half; invisible commands read as NOT_MATCH) */
+static uint8_t p_lane(size_t i)
+{
+        return p_disabled(i) ? LANE_NOT_MATCH : (uint8_t)((h_buf[i >> 2] >> ((i & 3) << 1)) & 3);
+}
+
+static _Bool p_lanes_at(size_t from, size_t to, size_t k)
+{
+        size_t i;
+        for (i = 0; i < H_NC; i++)
+                if (i >= from && i < to && i < g_ncmds && p_lane(i) != p_spec(i, k))
+                        return 0;
+        return 1;
+}
+
+/* the command selected by the typed name: first exact match in registration order, else the unique proper-prefix match, else none (H_NC) */
+static size_t p_resolve(size_t k)
+{
+        size_t i, np = 0, last = H_NC;
+        for (i = 0; i < H_NC; i++)
+                if (i < g_ncmds && p_spec(i, k) == LANE_FULL)
+                        return i;
+        for (i = 0; i < H_NC; i++)
+                if (i < g_ncmds && p_spec(i, k) == LANE_PARTIAL) {
+                        np++;
+                        last = i;
+                }
+        return (np == 1) ? last : H_NC;
+}
+
+/* scan state of the resolution loop after looking at commands below idx */
+static _Bool p_search_progress(const struct cat_object *s)
+{
+        size_t i, np = 0, last = H_NC;
+        for (i = 0; i < H_NC; i++)
+                if (i < s->index && i < g_ncmds) {
+                        uint8_t v = p_spec(i, s->length);
+                        if (v == LANE_FULL)
+                                return 0;
+                        if (v == LANE_PARTIAL) {
+                                np++;
+                                last = i;
+                        }
+                }
+        return s->partial_cntr == np && s->cmd == ((last < H_NC) ? &h_cmds[last] : NULL);
+}
+
+/* an enabled implicit-write command below idx is matched exactly by the typed name */
+static _Bool p_implicit_hit_below(size_t idx, size_t k)
+{
+        size_t i;
+        for (i = 0; i < H_NC; i++)
+                if (i < idx && i < g_ncmds && h_cmds[i].implicit_write && p_spec(i, k) == LANE_FULL)
+                        return 1;
+        return 0;
+}
+
 static _Bool p_is_newline_ptr(const char *p)
 {
         return p == &h_crlf[0] || p == &h_crlf[1];
@@ -205,6 +309,32 @@ static _Bool inv_live(const struct cat_object *s)
         const struct cat_command *c = s->cmd;
         if (s->implicit_write_flag != 0 && ST(s) != CAT_STATE_UPDATE_COMMAND_STATE)
                 return 0;
+#ifndef H_NO_LANES
+        switch (ST(s)) {
+        case CAT_STATE_PARSE_COMMAND_CHAR:
+        case CAT_STATE_WAIT_READ_ACKNOWLEDGE:
+        case CAT_STATE_SEARCH_COMMAND:
+                if (!p_lanes_at(0, g_ncmds, s->length))
+                        return 0;
+                if (ST(s) == CAT_STATE_SEARCH_COMMAND && !p_search_progress(s))
+                        return 0;
+                break;
+        case CAT_STATE_UPDATE_COMMAND_STATE:
+                if (!(s->length >= 1 && p_lanes_at(0, s->index, s->length) && p_lanes_at(s->index, g_ncmds, s->length - 1)))
+                        return 0;
+                if (s->length - 1 <= H_NL && s->current_char != g_typed[s->length - 1])
+                        return 0;
+                if ((s->implicit_write_flag != 0) != p_implicit_hit_below(s->index, s->length))
+                        return 0;
+                break;
+        case CAT_STATE_COMMAND_FOUND:
+                if (!(p_resolve(s->length) < H_NC && c == &h_cmds[p_resolve(s->length)]))
+                        return 0;
+                break;
+        default:
+                break;
+        }
+#endif
         switch (ST(s)) {
         case CAT_STATE_ERROR:
         case CAT_STATE_PARSE_PREFIX:
